@@ -27,6 +27,7 @@ from fdtdx.materials import (
     compute_allowed_magnetic_conductivities,
     compute_allowed_permeabilities,
     compute_allowed_permittivities,
+    validate_dispersive_coupled_stability,
     validate_dispersive_divisor_stability,
 )
 from fdtdx.objects.boundaries.bloch import BlochBoundary
@@ -1175,6 +1176,16 @@ def _init_arrays(
             _collect_labeled_materials(objects),
             dt=config.time_step_duration,
             courant_factor=config.courant_factor,
+        )
+
+    # Lorentz/Drude poles couple to E explicitly, which lowers the usable Courant factor for strong
+    # or fast poles; warn once, on concrete host values, when a material is beyond that limit.
+    if num_dispersive_poles > 0:
+        validate_dispersive_coupled_stability(
+            _collect_labeled_materials(objects),
+            dt=config.time_step_duration,
+            courant_factor=config.courant_factor,
+            num_active_axes=sum(1 for n in volume_shape if n > 1),
         )
 
     # Save backup of initial inv_permittivities when using etched_devices
